@@ -5,7 +5,8 @@ validated; verif.py compares on every run and, when a modelled file has changed,
 budgets of the checks (more cases, thorough generators) — it never raises an alarm by itself."""
 import hashlib, json, os, re, sys
 ROOT = os.path.dirname(os.path.dirname(os.path.abspath(__file__)))
-SRC = "/repo/src"
+import os
+SRC = os.path.join(os.environ.get("REGRESS_REPO", "/repo"), "src")
 
 
 def norm(text):
